@@ -35,6 +35,7 @@ func init() {
 			"vector3 Add/Sub/Cross/Scale/DivByConstant/Normalized of EliCDavis/vector v1.8.0 have their published meaning (resolved by object, modelled by table in NRM-2)",
 			"LATCH-1 contract: any record with a stored (non-zero) normal means the mesh read back carries the normals attribute (today's behaviour; needed for stored normals to survive ReadMesh → WriteMesh)",
 			"HDR-FREE: the 80 header bytes of a binary STL file carry no format information (published format); the decode side may copy, log or format them but not decide on them",
+			"ATTR-OPAQUE: the 2-byte attribute word of a record is payload (colour / tool specific), not a length: every record is exactly 50 bytes",
 		},
 		Controls: controls,
 		Run:      run,
@@ -148,6 +149,7 @@ func run(c *props.Ctx) {
 	axisSlots(a, r)
 	if read != nil && readMesh != nil {
 		hdrFree(a, r, []*ssa.Function{read, readMesh})
+		attrOpaque(a, r, []*ssa.Function{read, readMesh})
 	}
 
 	runControls(a)
@@ -161,6 +163,7 @@ func run(c *props.Ctx) {
 	c.R.Floor("NRM-1", 3)
 	c.R.Floor("AXIS-1", 2)
 	c.R.Floor("HDR-FREE", 2)
+	c.R.Floor("ATTR-OPAQUE", 2)
 	c.R.Floor("LATCH-1", 1)
 }
 
@@ -278,6 +281,51 @@ func steps(a *anchors, r *rep, rule string, fn *ssa.Function, e *sx.Env) ([]*ste
 	}
 	if !sx.TotallyOrdered(ops) {
 		r.Undecide(rule, name, pos, "stream operations are not totally ordered by dominance (conditional layout)")
+		return nil, false
+	}
+	// any other call that is handed the stream moves bytes the steps above do not account for
+	known := map[ssa.Instruction]bool{}
+	for _, op := range ops {
+		known[op.Call] = true
+	}
+	var stray *ssa.Call
+	for _, b := range fn.Blocks {
+		for _, in := range b.Instrs {
+			c, ok := in.(*ssa.Call)
+			if !ok || known[c] {
+				continue
+			}
+			args := c.Call.Args
+			if c.Call.IsInvoke() {
+				args = append([]ssa.Value{c.Call.Value}, args...)
+			}
+			for _, arg := range args {
+				v := arg
+				for {
+					if mi, ok := v.(*ssa.MakeInterface); ok {
+						v = mi.X
+						continue
+					}
+					if ci, ok := v.(*ssa.ChangeInterface); ok {
+						v = ci.X
+						continue
+					}
+					break
+				}
+				if v == ssa.Value(sp) && stray == nil {
+					stray = c
+				}
+			}
+		}
+	}
+	if stray != nil {
+		what := "a call"
+		if o := stray.Call.StaticCallee(); o != nil {
+			what = o.Name()
+		} else if stray.Call.IsInvoke() {
+			what = stray.Call.Method.Name()
+		}
+		r.Undecide(rule, name, a.p.Pos(stray.Pos()), "the stream is also handed to "+what+", an operation whose byte count the rule does not know: the step sequence is incomplete")
 		return nil, false
 	}
 	var out []*step
@@ -1194,6 +1242,15 @@ func gather(a *anchors, r *rep, fn, write *ssa.Function) {
 		key := fmt.Sprintf("%s#records.loop%d", name, li)
 		pos := a.p.Pos(byLoop[lp][0].st.St.Pos())
 		res := sx.Cover(idx, byLoop[lp][0].ivs, length)
+		for _, st := range byLoop[lp] {
+			// stores that only fill the Normal may be conditional (mesh without normals)
+			if len(st.st.Ad.Path) > 0 && st.st.Ad.Path[0] == sx.FieldIndex(a.tTri, "Normal") {
+				continue
+			}
+			if res.OK && !everyIteration(st.st.St.Block(), st.ivs) {
+				res.OK, res.Why = false, "a record is stored conditionally inside the gather loop (one record per triangle, unconditionally)"
+			}
+		}
 		early := false
 		for _, x := range sx.LoopExitTargets(lp.Loop) {
 			if x != lp.NormalExit() && !sx.ErrorOnly(x, nil) {
